@@ -40,6 +40,54 @@ def missing_error(obs):
     return obs["status"] in ("failed", "raised") and obs.get("error") == 4 and "Requested outputs not found" in (obs.get("error_repr") or "")
 
 
+def select_forms_part(ctx):
+    """The run-time selection given as a list, a tuple or a single string means the same thing: only requested OUTPUTS are
+    returned; a name that is not an output of the graph (an input name, a typo) is rejected whatever the form."""
+    import asyncio
+    import warnings
+    from hypergraph import Graph, SyncRunner, AsyncRunner
+    from hypergraph.nodes import FunctionNode
+    rng = ctx.rng
+    n = 0
+
+    def double(x):
+        return 2 * x
+
+    def add(doubled, b=1):
+        return doubled + b
+
+    def tag(sum):  # noqa: A002
+        return ("t", sum)
+    g = Graph([FunctionNode(double, name="double", output_name="doubled"), FunctionNode(add, name="add", output_name="sum"),
+               FunctionNode(tag, name="tag", output_name="tagged")])
+    outputs = ["doubled", "sum", "tagged"]
+    for _ in range(ctx.n(40, 300)):
+        names = rng.sample(outputs, rng.randint(1, 3))
+        if rng.random() < 0.5:
+            names.insert(rng.randrange(len(names) + 1), rng.choice(["x", "b", "typo"]))      # not an output
+        form = rng.choice(["list", "tuple"] + (["str"] if len(names) == 1 else []))
+        sel = list(names) if form == "list" else tuple(names) if form == "tuple" else names[0]
+        is_async = rng.random() < 0.4
+        inputs = {"x": rng.randint(0, 3), "b": rng.randint(0, 3)}
+        valid = all(k in outputs for k in names)
+        try:
+            with warnings.catch_warnings():
+                warnings.simplefilter("ignore")
+                res = asyncio.run(AsyncRunner().run(g, inputs, select=sel)) if is_async else SyncRunner().run(g, inputs, select=sel)
+            got = ("values", dict(res.values))
+        except Exception as e:  # noqa: BLE001
+            got = ("raised", type(e).__name__)
+        n += 1
+        case = {"select": repr(sel), "inputs": inputs, "async": is_async}
+        if valid:
+            if got[0] != "values" or set(got[1]) != set(names):
+                ctx.violation("oracle", f"select={sel!r}: expected exactly the outputs {sorted(names)}, got {got}", case=case)
+        elif got[0] == "values":
+            ctx.violation("oracle", f"select={sel!r} names something that is not an output of the graph, yet the run returned {got[1]} "
+                          f"(the list form of the same selection is rejected)", case=case)
+    return n
+
+
 def run(ctx):
     rng = ctx.rng
     cases = []
@@ -131,9 +179,10 @@ def run(ctx):
             msgs.append(f"run raised {obs['error_repr']}")
         return msgs
 
+    n_forms = select_forms_part(ctx)
     obs_all, res = engine.run_cases(ctx, "C16", cases, extra=extra, want_model=lambda g, rc, obs: not missing_error(obs))
     ctx.coverage.update(
-        evaluations=len(cases), coq_checks=res["n"], distinct_nontrivial=len(nontrivial),
+        evaluations=len(cases) + n_forms, coq_checks=res["n"], distinct_nontrivial=len(nontrivial),
         rule="dag/gated/emit/loop programs (20% with failing nodes) x entry-point sets x graph-level select x run-time select "
              "('**' or lists, emit names included) x on_missing; both runners; non-trivial = entry points configured or an explicit "
              "effective selection",
